@@ -8,6 +8,10 @@ open Ffuzzy Ffuzzy.Spec
 /-- the size the elimination test compares the border with -/
 def eff (g : Gen) : Nat := g.fixedSize.getD g.inputSize
 
+/-- the largest size the elimination test has ever compared the border with: the declared size once
+    there is one, the processed size before (both only grow between resets) -/
+def effM (g : Gen) : Nat := max (eff g) g.inputSize
+
 /-- the engine state `g` simulates the reference engine `n` (both after the same bytes):
     active levels agree on their live parts, levels not yet forked are untouched in the reference
     engine, eliminated levels can never be selected by finalisation. -/
@@ -21,7 +25,7 @@ structure Sim (g : Gen) (n : Naive) : Prop where
   en_le : g.bhEnd ≤ 31
   live : ∀ k, g.bhStart ≤ k → k < g.bhEnd → Live (g.ctxAt k) (n.at k)
   virgin : ∀ k, g.bhEnd ≤ k → k ≤ g.bhEndLimit → (n.at k).idx = 0
-  elim : ∀ k, k < g.bhStart → 192 * 2 ^ k < eff g ∧ 32 ≤ (n.at (k + 1)).idx
+  elim : ∀ k, k < g.bhStart → 192 * 2 ^ k < effM g ∧ 32 ≤ (n.at (k + 1)).idx
   mask : g.rollMask = 2 ^ g.bhStart - 1
   border : g.elimBorder = 192 * 2 ^ g.bhStart
   last : g.bhEndLimit = 30 →
